@@ -203,10 +203,19 @@ func (w *c10World) build(r *core.Rng, fault, policy string, yr int) c10Case {
 		}
 		for _, f := range w.files {
 			v := r.Chance(3, 4)
+			mixed := len(f.ifaces) >= 2 && r.Chance(1, 4)
+			all := true
 			for _, n := range f.ifaces {
-				w.ifaceNode(cfg, f, n).Set("force-file-write", v)
+				vi := v
+				if mixed {
+					vi = r.Bool()
+				}
+				all = all && vi
+				w.ifaceNode(cfg, f, n).Set("force-file-write", vi)
 			}
-			cs.Force[f.path] = v
+			// mocks sharing a file may disagree: the file may only be replaced if every one of
+			// them allows it
+			cs.Force[f.path] = all
 		}
 	}
 	// stage fault at one file
